@@ -441,6 +441,9 @@ package types
 //@   except nilmap@4f9527#1 : undischarged on the reference tree (engine limit or missing callee contract), not claimed
 //@   nopanic[C14,C16]
 //@   ensures[C14] err == nil ==> result != nil && fresh(result)
+// C16 "labels are layered the same way from label_file and labels": the mapping the final labels are built from
+// gives every inline label its inline value (inline `labels` override the label files)
+//@   callsite[C16] types.NewLabelsFromMappingWithEquals : forall k string :: has(service.Labels, k) ==> has(mapping, k) && mapping[k] != nil && deref(mapping[k]) == service.Labels[k]
 //@   loop 1
 //@     invariant newProject != nil && fresh(newProject)
 //@   loop 2
